@@ -512,7 +512,22 @@ func RunCrashScenario(sc *Scenario) (vd *Verdict) {
 				}
 			}
 			delete(r.settings, op.DS)
+			// readers hold the map of deleted datasets without a lock: a delete must not change the map they hold
+			heldMap := r.H.Store.VerifDeletedDatasets()
+			heldLen := len(heldMap)
+			// clients that started paged relationship queries scoped to the dataset before it goes away
+			open := r.startPagedBeforeDelete(op.DS)
 			werr = r.H.Dsm.DeleteDataset(op.DS)
+			if werr == nil {
+				if len(heldMap) != heldLen {
+					fail(viol(sc.Property, "shared-state", "deleted-datasets-map-mutated-in-place", "DeleteDataset(%s) added to the map of deleted datasets that lock-free readers (lookups, relationship queries, garbage collector) already hold: a concurrent map read and write ends the process", op.DS), i)
+					return
+				}
+				if v := r.continuePagedAfterDelete(op.DS, open); v != nil {
+					fail(v, i)
+					return
+				}
+			}
 			mgmt = true
 		case "createDataset":
 			st := settingsFromOp(op)
@@ -978,4 +993,121 @@ func (r *CrashRun) takeoverBackupLocation() *Violation {
 	r.atBackup = nil
 	r.Stats["location_takeovers"]++
 	return nil
+}
+
+
+// pagedOpen is a paged relationship query a client began before a dataset was deleted.
+type pagedOpen struct {
+	start   string
+	inverse bool
+	scope   []string
+	cont    []*server.RelatedFrom
+	victim  map[relPair]bool // what the dataset about to be deleted contributes to the answer
+}
+
+// startPagedBeforeDelete starts page-size-1 wildcard queries scoped to the dataset about to be deleted (and
+// one more dataset) for every identifier written so far, and keeps their continuation tokens.
+func (r *CrashRun) startPagedBeforeDelete(victim string) []*pagedOpen {
+	if r.Sc.Property != "C07" || r.H.Dataset(victim) == nil {
+		return nil
+	}
+	var out []*pagedOpen
+	scopes := [][]string{{victim}}
+	for _, n := range r.M.Names() {
+		if n != victim {
+			scopes = append(scopes, []string{victim, n})
+			break
+		}
+	}
+	pool, _ := collectNames(r.Sc)
+	for _, id := range pool {
+		c := r.H.curie(id)
+		for _, inv := range []bool{false, true} {
+			for _, scope := range scopes {
+				from, err := r.H.Store.ToRelatedFrom([]string{c}, "*", inv, scope, time.Now().UnixNano())
+				if err != nil || len(from) == 0 || from[0] == nil {
+					continue
+				}
+				first, err := r.H.Store.GetManyRelatedEntitiesAtTime(from, 1, true)
+				if err != nil || len(first.Cont) == 0 {
+					continue
+				}
+				po := &pagedOpen{start: r.H.expand(c), inverse: inv, scope: scope, cont: first.Cont}
+				if inv {
+					po.victim = r.M.In(po.start, "*", []string{victim})
+				} else {
+					po.victim = r.M.Out(po.start, "*", []string{victim})
+				}
+				out = append(out, po)
+				if len(out) >= 12 {
+					return out
+				}
+			}
+		}
+	}
+	return out
+}
+
+// continuePagedAfterDelete follows the continuation tokens after the delete: nothing that was written to the
+// deleted dataset may come back, whatever the token says.
+func (r *CrashRun) continuePagedAfterDelete(victim string, open []*pagedOpen) *Violation {
+	for _, pq := range open {
+		var survivors []string
+		for _, n := range pq.scope {
+			if n != victim && r.M.DS[n] != nil {
+				survivors = append(survivors, n)
+			}
+		}
+		allowed := map[relPair]bool{}
+		if len(survivors) > 0 {
+			if pq.inverse {
+				allowed = r.M.In(pq.start, "*", survivors)
+			} else {
+				allowed = r.M.Out(pq.start, "*", survivors)
+			}
+		}
+		cont := pq.cont
+		for guard := 0; len(cont) > 0 && guard < 100; guard++ {
+			res, err := r.H.Store.GetManyRelatedEntitiesAtTime(cont, 1, true)
+			if err != nil {
+				break // refusing a token of a deleted dataset is fine
+			}
+			got, _ := relSet(r.H, res.Relations)
+			for p := range got {
+				// judged: pairs the deleted dataset contributed and no surviving dataset of the scope ever held (a pair
+				// some version of a surviving dataset held may come back through the open inverse-scan finding KF-C03-1)
+				if !allowed[p] && pq.victim[p] && !everHeld(r.M, survivors, pq.start, pq.inverse, p) {
+					dir := "out"
+					if pq.inverse {
+						dir = "in"
+					}
+					return viol("C07", "deleted-dataset", "continued-page-returns-deleted-data:"+dir, "a relationship query for %s (%s, scope %v) paged with limit 1 was started before dataset %s was deleted; its continuation returned %s->%s afterwards, which only the deleted dataset held (surviving scope allows %s)", shortURI(pq.start), dir, pq.scope, victim, shortURI(p[0]), shortURI(p[1]), fmtPairs(allowed))
+				}
+			}
+			cont = res.Cont
+		}
+		r.Stats["paged_across_delete"]++
+	}
+	return nil
+}
+
+// everHeld tells whether any version in the history of the given datasets carried the relation.
+func everHeld(m *Model, datasets []string, start string, inverse bool, p relPair) bool {
+	for _, n := range datasets {
+		d := m.DS[n]
+		if d == nil {
+			continue
+		}
+		for _, v := range d.Versions {
+			for _, pt := range refTargets(v.C) {
+				if inverse && pt[0] == p[0] && pt[1] == start && v.C.ID == p[1] {
+					return true
+				}
+				if !inverse && v.C.ID == start && pt == p {
+					return true
+				}
+			}
+		}
+	}
+	return false
 }
